@@ -9,7 +9,8 @@ from gen.simple import run_simple
 
 class SPEC:
     rule = ("engine agg under the virtual clock, public API (AggregateMsgByFlowKey, ForAllRecordsDo, expiry scan whose callback resets the "
-            "statistics): histories of 1..80 records over a pool of 2..6 five-tuples (IPv4 and IPv6, tuples differing in a single "
+            "statistics; a further 30 % of the histories hand over data sets of 2..4 records of mixed five-tuples which were encoded by the "
+            "exporter code and decoded by a collecting process, the production path of the records): histories of 1..80 records over a pool of 2..6 five-tuples (IPv4 and IPv6, tuples differing in a single "
             "component), all flow types (single-stream and correlated inter-node flows), per reporting node strictly increasing end times "
             "and non-decreasing totals, end > start, counters of adversarial magnitude (0, 1, 2^32 +- 1, 2^61 +- 1, near 2^64), interleaved "
             "with exports-with-reset, clock advances (inactive expiry restarts a flow) and a dump after every step. The declarative "
@@ -38,10 +39,13 @@ class Node:
             step = rng.choice([1, 1, 2, 5, 60, 3600])
             if rng.random() < 0.03:                       # gaps of 2^31 s and more: elapsed times are unsigned 32-bit
                 step = rng.choice([2 ** 31 - 1, 2 ** 31, 2 ** 31 + 7, 3 * 2 ** 30])
-            if self.end + step < 2 ** 32:
+            # end times are unsigned 32-bit and must keep increasing: no step lands in the last 400 seconds of
+            # the range, which are left to the single steps of the (at most 4 x 80) later records of the node
+            if self.end + step < 2 ** 32 - 400:
                 self.end += step
             else:
                 self.end += 1
+            assert self.end < 2 ** 32
             self.tot = [t + rng.choice([0, 1, 7, 1500, 2 ** 20, rng.choice(MAGS)]) for t in self.tot]
             self.tot = [min(t, 2 ** 61) for t in self.tot]
         else:
@@ -52,7 +56,9 @@ class Node:
         return self.end, [self.tot[0], deltas[0], self.tot[1], deltas[1], self.tot[2], deltas[2], self.tot[3], deltas[3]]
 
 
-def history(rng, tier, contract=True):
+def history(rng, tier, contract=True, msgs=False):
+    """msgs: most records arrive in data sets of 2..4 records (`agg msg`: exporter encoding -> collector decoding ->
+    aggregation) in which records of different five-tuples are mixed with records of the same one"""
     keys = rng.sample([1, 2, 3, 4, 5, 6], rng.randint(2, 6))
     kinds = {}
     nodes = {}
@@ -60,30 +66,44 @@ def history(rng, tier, contract=True):
     n = rng.randint(1, 80)
     perm_p = rng.choice([0, 0, 0.3, 1.0])
     per_key = {}
+
+    def rec_for(k):
+        if k not in kinds:
+            kinds[k] = rng.choice(["intra", "intra", "inter", "inter", "external", "egress-drop"])
+            start = rng.choice([100, 1000, 1, 0])
+            nodes[k] = {"S": Node(rng, start), "D": Node(rng, start), "start": start}
+        kind = kinds[k]
+        per_key[k] = per_key.get(k, 0) + 1
+        if kind == "intra":
+            e, st = nodes[k]["S"].next(contract)
+            return AG.rec_op(k, 1, AG.corr("podA", "podB"), nodes[k]["start"], e, st, reason=rng.choice([1, 2, 3]), tcp=rng.choice(["ESTABLISHED", "TIME_WAIT", ""]))
+        if kind == "external":
+            e, st = nodes[k]["S"].next(contract)
+            return AG.rec_op(k, 3, AG.corr("podA", ""), nodes[k]["start"], e, st)
+        if kind == "egress-drop":
+            e, st = nodes[k]["S"].next(contract)
+            return AG.inter_src(k, nodes[k]["start"], e, st, egress=2)
+        side = rng.choice("SD")
+        e, st = nodes[k][side].next(contract)
+        f = AG.inter_src if side == "S" else AG.inter_dst
+        return f(k, nodes[k]["start"], e, st)
+
     for _ in range(n):
         r = rng.random()
-        if r < 0.72:
+        if r < 0.72 and msgs and rng.random() < 0.75:
+            # one data set: the five-tuples of one address family (one template), several of them where the pool has
+            # them; a flow which starts with this message has, in most cases, its first record NOT at the end
+            k0 = rng.choice(keys)
+            family = [k for k in keys if AG.is_v6(k) == AG.is_v6(k0)]
+            ks = [k0] + [rng.choice(family) if rng.random() < 0.8 else k0 for _ in range(rng.randint(1, 3))]
+            if ks[-1] not in kinds and ks.count(ks[-1]) == 1 and rng.random() < 0.7:
+                ks.insert(rng.randrange(len(ks) - 1), ks.pop())
+            recs = [rec_for(k) for k in ks]
+            ops.append(AG.msg_op(recs, rng.randrange(1, 1 << 30) if perm_p and rng.random() < perm_p else None))
+            ops.append("agg dump")
+        elif r < 0.72:
             k = rng.choice(keys)
-            if k not in kinds:
-                kinds[k] = rng.choice(["intra", "intra", "inter", "inter", "external", "egress-drop"])
-                start = rng.choice([100, 1000, 1, 0])
-                nodes[k] = {"S": Node(rng, start), "D": Node(rng, start), "start": start}
-            kind = kinds[k]
-            per_key[k] = per_key.get(k, 0) + 1
-            if kind == "intra":
-                e, st = nodes[k]["S"].next(contract)
-                ops.append(AG.rec_op(k, 1, AG.corr("podA", "podB"), nodes[k]["start"], e, st, reason=rng.choice([1, 2, 3]), tcp=rng.choice(["ESTABLISHED", "TIME_WAIT", ""])))
-            elif kind == "external":
-                e, st = nodes[k]["S"].next(contract)
-                ops.append(AG.rec_op(k, 3, AG.corr("podA", ""), nodes[k]["start"], e, st))
-            elif kind == "egress-drop":
-                e, st = nodes[k]["S"].next(contract)
-                ops.append(AG.inter_src(k, nodes[k]["start"], e, st, egress=2))
-            else:
-                side = rng.choice("SD")
-                e, st = nodes[k][side].next(contract)
-                f = AG.inter_src if side == "S" else AG.inter_dst
-                ops.append(f(k, nodes[k]["start"], e, st))
+            ops.append(rec_for(k))
             if perm_p and rng.random() < perm_p:
                 # exporters need not list the fields of a record in the same order (and a template refresh may reorder them)
                 ops[-1] += " p%d" % rng.randrange(1, 1 << 30)
@@ -100,7 +120,7 @@ def history(rng, tier, contract=True):
         else:
             ops += ["agg adv %d" % rng.choice([1, 10]), "agg dump"]
     nt = any(v >= 2 for v in per_key.values())
-    return Case(ops, "contract" if contract else "violating", nt, contract)
+    return Case(ops, ("contract" if contract else "violating") + ("-msg" if msgs else ""), nt, contract)
 
 
 def run(ctx):
@@ -111,9 +131,20 @@ def run(ctx):
         cases.append(history(rng, ctx.tier, True))
     for _ in range(n // 6):
         cases.append(history(rng, ctx.tier, False))
+    # a further 30 %: the records reach the aggregation as the collector decoded them, several per data set
+    # (own stream of random numbers: the histories above do not depend on these)
+    rng2 = random.Random(ctx.seed * 1000003 + 505)
+    for _ in range(n * 3 // 10):
+        cases.append(history(rng2, ctx.tier, True, msgs=True))
+    for _ in range(n // 40):
+        cases.append(history(rng2, ctx.tier, False, msgs=True))
     res = run_simple(ctx, cases, "C05", chk_filter=lambda op: True, stateful_chk=True,
                      chk_variant=lambda op: "agga" + op[3:],
                      signature=lambda c, oi, v, agrees: "C05:%s" % " ".join(v.split(" ")[:3]))
-    res["evaluations"] = sum(1 for c in cases for o in c.ops if o.startswith("agg rec"))
-    res["notes"].append("%d histories (%d contract-violating, diagnostic only); evaluations counts records ingested" % (len(cases), n // 6))
+    res["evaluations"] = sum(AG.n_records(o) for c in cases for o in c.ops)
+    nmsg = sum(1 for c in cases for o in c.ops if o.startswith("agg msg"))
+    nmix = sum(1 for c in cases for o in c.ops if o.startswith("agg msg") and len({g.split()[0] for g in o[8:].split(" + ")}) > 1)
+    res["notes"].append("%d histories (%d contract-violating, diagnostic only; %d deliver records in multi-record data sets through "
+                        "the collector: %d messages, %d with several five-tuples); evaluations counts records ingested"
+                        % (len(cases), n // 6 + n // 40, n * 3 // 10 + n // 40, nmsg, nmix))
     return res
